@@ -211,6 +211,16 @@ def constant_stream(chk, table, quick):
         for src, den in (("&#0;1", "\x001"), ("a&#0;7b", "a\x007b"), ("&#x0;0", "\x000"), ("&#0;", "\x00"), ("\\n", "\\n"), ("\\u0041", "\\u0041"), ("&#34;&#39;", "\"'"),
                          ("&#x2028;&#x2029;", "\u2028\u2029"), ("\U0001F600&#1;2", "\U0001F600\x012"), ("&#13;&#10;", "\r\n")):
             cases.append((ci, src, den))
+    # every named reference whose name is not letters only (frac12, sup2, there4, blk14 …), the longest and the shortest names, one per first letter:
+    # the scanner of references, not only its table, is on the path
+    digit_names = [n for n in sorted(table) if not n.isalpha()]
+    by_len = sorted(table, key=lambda n: (len(n), n))
+    firsts = {}
+    for n in sorted(table):
+        firsts.setdefault(n[0], n)
+    for k, n in enumerate(digit_names + by_len[:3] + by_len[-3:] + sorted(firsts.values())):
+        for ci in (k % len(carriers), (k + 1) % 2):
+            cases.append((ci, "a&%s;1" % n, "a" + table[n] + "1"))
     from . import render
     groups = render.compile_templates([[["p", carriers[ci][1](src)]] for ci, src, den in cases])
     reqs, meta = [], []
